@@ -297,11 +297,16 @@ def make_part_class(name, hub):
     return _P
 
 
-def plain_part_class(name):
-    """uninstrumented: just binds K (used by the metamorphic checks)"""
+def plain_part_class(name, binding=None):
+    """uninstrumented: just binds K (used by the metamorphic checks).  binding == 'partial': K is bound with
+    functools.partial on the library's own class (the way a user gets an arity other than the default without
+    writing a subclass) - two such partitions with different K share one class object"""
     base, K = PART_SPECS[name]
     if K is None:
         return base
+    if binding == "partial":
+        import functools
+        return functools.partial(base, K=K)
 
     class _P(base):
         def __init__(self, domain=None, node=None):
